@@ -251,6 +251,9 @@ func coerceFloat(value interface{}) interface{} {
 		}
 		return coerceFloat(*value)
 	case float32:
+		if math.IsInf(float64(value), 0) {
+			return nil
+		}
 		return value
 	case *float32:
 		if value == nil {
@@ -258,6 +261,10 @@ func coerceFloat(value interface{}) interface{} {
 		}
 		return coerceFloat(*value)
 	case float64:
+		if math.IsInf(value, 0) {
+			// not representable in a response (nor in JSON)
+			return nil
+		}
 		return value
 	case *float64:
 		if value == nil {
@@ -266,7 +273,7 @@ func coerceFloat(value interface{}) interface{} {
 		return coerceFloat(*value)
 	case string:
 		val, err := strconv.ParseFloat(value, 0)
-		if err != nil {
+		if err != nil || math.IsInf(val, 0) {
 			return nil
 		}
 		return val
